@@ -21,6 +21,9 @@ CATALOGUE = [
     # a diagnostic line that ends in the verdict word (text echoed from the document), then the real verdict
     'txt:func=xmlSecTransformNodeRead:error=1:href=urn:x#OK\nFAIL\nSignedInfo References (ok/all): 0/1\n',
     'txt:func=xmlSecTransformNodeRead:error=1:href=urn:x#OK\nError: signature failed\nERROR\n',
+    'exit1-flood-aligned',   # exit 1, FAIL first, then > 64 KiB of diagnostics laid out so that the last 2^k characters
+                             # (k = 10..16) each begin with the tail "OK" of a line ending in "... not OK"
+    'exit1-separators',      # exit 1, one line in which the word OK is set off by form feed / VT / FS / NEL / LS / PS
     'stdout-OK',             # OK only on stdout
     'badbytes',              # undecodable stderr
     'out-absent',            # output file removed
@@ -36,6 +39,27 @@ CATALOGUE = [
 VERIFY_RELEVANT = [f for f in CATALOGUE]
 CHATTER = ('func=xmlSecOpenSSLEvpSignatureVerify:file=evp_signatures.c:line=346:obj=rsa-sha1:'
            'subj=EVP_VerifyFinal:error=18:data do not match:signature do not match\n')
+
+
+_FLOOD = []
+
+
+def flood_aligned():
+    if not _FLOOD:
+        total = 70000
+        line = 'func=xmlSecDSigReferenceCtxProcessNode:file=xmldsig.c:line=1:obj=unknown:subj=unknown:error=12:invalid data:digest is not OK\n'
+        buf = list(('FAIL\n' + line * (total // len(line) + 2))[:total - 1] + '\n')
+        for k in range(10, 17):
+            pos = total - (1 << k)
+            frag = ' is not OK\n'
+            start = pos - len(' is not ')
+            buf[start:start + len(frag)] = list(frag)
+        text = ''.join(buf)
+        assert text.startswith('FAIL\n') and 'OK' not in [l for l in text.splitlines()]
+        for k in range(10, 17):
+            assert text[-(1 << k):].startswith('OK\n')
+        _FLOOD.append(text)
+    return _FLOOD[0]
 
 
 def _outfile(entry):
@@ -86,6 +110,12 @@ def post(kind, entry, rc, out, err):
     if kind == 'exit1-chatter':
         wipe()
         return 1, b'', CHATTER.encode()
+    if kind == 'exit1-flood-aligned':
+        wipe()
+        return 1, b'', flood_aligned().encode()
+    if kind == 'exit1-separators':
+        wipe()
+        return 1, b'', 'the signature is not\x0cOK\x0cat all \x0bOK\x0b \x1cOK\x1c \x85OK\x85 \u2028OK\u2028 \u2029OK\u2029 \rOK\r\n'.encode('utf-8')
     if kind == 'sig9-empty':
         wipe()
         return -9, b'', b''
